@@ -135,6 +135,7 @@ def ctor_table():
         b = 'x'
     # round e: falsy-but-valid expected values, objects whose == is not an honest Boolean, keys of ONE type without an order
     falsy = [0, False, True, '', b'', [], {}, set(), AnyEq(), NeverEq(), ArrayLike([1, 2]), ArrayLike([])]
+    late = [256, -1, 1.5]      # appended after `falsy` (append only): out-of-range needles for bytes
     K1, K2 = (1, 'a'), ('a', 1)
     T = [
         ('Equals', [lambda x=x: M.Equals(x) for x in shapes + falsy]),
@@ -145,9 +146,11 @@ def ctor_table():
         ('SameMembers', [lambda x=x: M.SameMembers(x) for x in ([], [1, (1, 2)], (), (1,), (1, 2), {1, 2}, 'ab', b'ab')]),
         ('StartsWith', [lambda x=x: M.StartsWith(x) for x in ('', 'a', 'caf\xe9\n', b'a', b'\xff\n', ('a', 'b'), ())]),
         ('EndsWith', [lambda x=x: M.EndsWith(x) for x in ('', 'a', 'caf\xe9\n', b'a', b'\xff\n', ('a', 'b'), ())]),
-        ('Contains', [lambda x=x: M.Contains(x) for x in shapes + falsy]),
+        ('Contains', [lambda x=x: M.Contains(x) for x in shapes + falsy + late]),
         ('ContainsAll', [lambda x=x: M.ContainsAll(x) for x in ([], [1, 2], (), (1,), ((1, 2), 'a'), {1}, frozenset([1, 2]), 'ab')]),
-        ('IsInstance', [lambda: M.IsInstance(), lambda: M.IsInstance(int), lambda: M.IsInstance(int, str), lambda: M.IsInstance(tuple)]),
+        ('IsInstance', [lambda: M.IsInstance(), lambda: M.IsInstance(int), lambda: M.IsInstance(int, str), lambda: M.IsInstance(tuple),
+                        lambda: M.IsInstance(int | str), lambda: M.IsInstance((int, str)), lambda: M.IsInstance(bytes, int | None),
+                        lambda: M.IsInstance((int, (str, (bytes,))), dict), lambda: M.IsInstance(Color), lambda: M.IsInstance(())]),
         ('HasLength', [lambda: M.HasLength(0), lambda: M.HasLength(2)]),
         ('Always', [lambda: M.Always()]),
         ('Never', [lambda: M.Never()]),
@@ -167,7 +170,8 @@ def ctor_table():
         ('AnyMatch', [lambda: M.AnyMatch(M.Equals((1, 2))), lambda: M.AnyMatch(M.Never())]),
         ('MatchesListwise', [lambda: M.MatchesListwise([]), lambda: M.MatchesListwise((M.Equals(1), M.Never())),
                              lambda: M.MatchesListwise([M.Never()], first_only=True)]),
-        ('MatchesSetwise', [lambda: M.MatchesSetwise(), lambda: M.MatchesSetwise(M.Equals(1), M.Equals((1, 2))), lambda: M.MatchesSetwise(M.Never(), M.Never())]),
+        ('MatchesSetwise', [lambda: M.MatchesSetwise(), lambda: M.MatchesSetwise(M.Equals(1), M.Equals((1, 2))), lambda: M.MatchesSetwise(M.Never(), M.Never()),
+                            lambda: M.MatchesSetwise(*[M.Equals(1)] * 2), lambda: M.MatchesSetwise(*[M.Always()] * 3), lambda: M.MatchesSetwise(*[M.Contains(1)] * 2)]),
         ('MatchesStructure', [lambda: M.MatchesStructure(), lambda: M.MatchesStructure(args=M.Equals((1,))), lambda: M.MatchesStructure.byEquality(a=(1, 2), b='x'),
                               lambda: M.MatchesStructure.fromExample(Example, 'a', 'b'), lambda: M.MatchesStructure(a=M.Never(), b=M.Never()).update(b=None)]),
         ('MatchesDict', [lambda: M.MatchesDict({}), lambda: M.MatchesDict({'a': M.Equals((1, 2)), 'caf\xe9': M.Never()}), lambda: M.MatchesDict({1: M.Never(), 2: M.Equals(())}),
@@ -186,9 +190,11 @@ def ctor_table():
         ('Raises', [lambda: M.Raises(), lambda: M.Raises(M.MatchesException(KeyError)), lambda: M.Raises(M.Never())]),
         ('raises', [lambda: M.raises(ValueError), lambda: M.raises((KeyError, TypeError)), lambda: M.raises(ValueError(2))]),
         ('MatchesPredicate', [lambda: M.MatchesPredicate(C6._p_never, '%s is never ok'), lambda: M.MatchesPredicate(C6._p_falsy, 'caf\xe9 %r'),
-                              lambda: M.MatchesPredicate(C6._p_is_none, '%s %%')]),
+                              lambda: M.MatchesPredicate(C6._p_is_none, '%s %%'), lambda: M.MatchesPredicate(str.isidentifier, '%s'),
+                              lambda: M.MatchesPredicate(C6._p_never, '%s')]),
         ('MatchesPredicateWithParams', [lambda: M.MatchesPredicateWithParams(C6._pred_small, '{0} is not < {1}', 'Small')(3),
-                                        lambda: M.MatchesPredicateWithParams(lambda x, *a, **k: False, '{0} {1} {limit}')((1, 2), limit=())]),
+                                        lambda: M.MatchesPredicateWithParams(lambda x, *a, **k: False, '{0} {1} {limit}')((1, 2), limit=()),
+                                        lambda: M.MatchesPredicateWithParams(lambda x, *a: False, '{0}')(3), lambda: M.MatchesPredicateWithParams(lambda x, *a: False, '{1}')('')]),
         ('MatchesRegex', [lambda: M.MatchesRegex('a+b'), lambda: M.MatchesRegex('caf\xe9\n\\\\', re.S | re.I), lambda: M.MatchesRegex(b'\xff\n')]),
         ('DocTestMatches', [lambda: M.DocTestMatches('a...b', doctest.ELLIPSIS), lambda: M.DocTestMatches('caf\xe9\n'), lambda: M.DocTestMatches('')]),
         ('PathExists', [lambda: M.PathExists()]),
@@ -236,6 +242,7 @@ def ctor_matchees():
           ('dict', lambda: {OBJKEY: 0, OBJKEY2: 1, (1, 'a'): 2, ('a', 1): 3, 1j: 4, 2j: 5}), ('dict', lambda: {0: 0, '': '', False: False} ),
           ('bool', lambda: False), ('bool', lambda: True), ('zero', lambda: 0), ('bytes', lambda: b''), ('obj', lambda: AnyEq()), ('obj', lambda: NeverEq()),
           ('obj', lambda: ArrayLike([1, 2])), ('list', lambda: [AnyEq(), 0, '', None, False]), ('tuple', lambda: (0, '', None))]
+    V += [('list', lambda: [1, 1]), ('list', lambda: [1, 1, 1]), ('bytes', lambda: b'a'), ('float', lambda: 1.5), ('obj', lambda: Color.RED)]
     return V
 
 
@@ -293,12 +300,14 @@ class C07(Prop):
         'repr(), pprint.pformat(), % and str.format on the values of the universe are assumed total (exercised, not proved)',
         'bool values are outside the matcher-expression universe (True == 1 would break structural equality); False / True / 0 / empty str, bytes, list, dict, set as expected values and as matchees, objects whose == answers True / False to everything or has no truth value (array-like), and dict keys without an order inside one type (complex, enum members, plain objects) are exercised through the ctor inputs only',
         'mismatch objects are assumed truthy (every stock Mismatch is): a user-defined falsy Mismatch (e.g. one that is also an empty dict) is treated as "matched" by assertThat/assert_that, AllMatch, AnyMatch, MatchesListwise, the dict matchers and Raises, which test truthiness, but not by MatchesAll/MatchesAny/Not/Annotate, which test `is None` - reported, outside the alphabet',
-        'constructor arguments of undocumented types are outside the alphabet: MatchesRegex(<compiled pattern>) fails to build its mismatch (pattern.decode), StartsWith/EndsWith(<tuple containing a newline>) fail in describe() (text_repr of a tuple), DocTestMatches(<bytes>) fails in the constructor',
+        'constructor arguments of undocumented types are outside the alphabet: MatchesRegex(<compiled pattern>) fails to build its mismatch (pattern.decode), StartsWith/EndsWith(<tuple containing a newline>) fail in describe() (text_repr of a tuple), DocTestMatches(<bytes>) fails in the constructor; SameMembers over one-shot iterators; lone surrogates in matchees (describe() returns text, but the detail cannot be encoded by the text results)',
         'describe() of the mismatches of opaque leaves (MatchesRegex, DocTestMatches, filesystem matchers, Warnings) is tested, not proved',
         'pyRepr / pyEval are models of CPython repr() and of string-literal evaluation, validated against repr / ast.literal_eval on every text_repr input; str.isprintable for code points >= 128 is an input of the model',
         'MatchesSetwise: messages naming left-over matchers are built inside match(); the model only accounts for them through the str() table',
         'detail names of the harness have no "-<digits>" tail, so that name-<n> is rendered injectively',
         'the end of the run (exceptions collected from body / tearDown / cleanups, forced failure appended last, _select_exception) is a small model of RunTest._run_core restricted to one exception per stage; the full run model belongs to C01-C05',
+        '"makes the test fail once it has finished" is claimed for expectations recorded after setUp returned normally: an expectThat mismatch in setUp followed by a skip raised in setUp ends as addSkip (the setUp-failed branch of RunTest._run_core never looks at force_failure); force_failure left by an earlier run of the same instance is carried over (_reset does not clear it) - M-Run models that as ff0',
+        'describe() / str(MismatchError) / str(matcher) are asked twice of the same object and must answer the same text',
     ]
 
     manifest = {
@@ -401,6 +410,17 @@ class C07(Prop):
             return ['raised', C6.classify_exc(e)], None
         if not isinstance(x, typ):
             return ['wrong-type', type(x).__name__], x
+        if typ is str:
+            # the same question asked again of the same object must get the same text (a mismatch that describes
+            # itself from a generator is empty the second time)
+            try:
+                y = f()
+            except BaseException as e:
+                if isinstance(e, (KeyboardInterrupt, SystemExit)) and not getattr(e, 'verif_generated', False):
+                    raise
+                return ['raised', 'Unstable'], x
+            if y != x:
+                return ['raised', 'Unstable'], x
         return 'ok', x
 
     def run_describe(self, inp):
@@ -413,7 +433,7 @@ class C07(Prop):
             warnings.simplefilter('ignore')
             ctx = C6.Ctx()
             pv = C6.build_v(v, ctx)
-            real = P6.build_m(m, ctx, 0, [])
+            real = P6.build_m(m, ctx, 1 if verbose else 0, [])    # verbose: equal sub-terms are one shared object
             matcher = Annotate.if_message('msg \xe9' if annotated else '', real)
             rs, _ = self.result(lambda: str(matcher), str)
             try:
@@ -429,7 +449,8 @@ class C07(Prop):
                 rg, _ = self.result(mm.get_details, dict)
                 # a fresh mismatch, as in assertThat (LabelledMismatches of the dict matchers describes only once:
                 # it holds a generator)
-                re_, _ = self.result(lambda: str(MismatchError(pv, matcher, matcher.match(pv), verbose)), str)
+                err = MismatchError(pv, matcher, matcher.match(pv), verbose)
+                re_, _ = self.result(lambda: str(err), str)
             else:
                 rd = rg = re_ = 'ok'
         return ['describe', rs, matched, rd, rg, re_]
@@ -586,7 +607,8 @@ class C07(Prop):
             if mm is not None:
                 rd, _ = self.result(mm.describe, str)
                 rg, _ = self.result(mm.get_details, dict)
-                re_, _ = self.result(lambda: str(MismatchError(value, matcher, matcher.match(value), verbose)), str)
+                err = MismatchError(value, matcher, matcher.match(value), verbose)
+                re_, _ = self.result(lambda: str(err), str)
         return ['ctor', rs, rd, rg, re_]
 
     def gen_ctor(self, rng):
